@@ -691,8 +691,8 @@ def sequence_case(case, ctor_method, queue, reqs, part, replay, ctor_path=None):
         if rsp["errored"]:
             bad("errored", "request %d (%s): response errored: %s" % (i + 1, m, rsp["error"]))
             return "errored"
-        compare(i, rsp, "")
-        delivered.append(rsp)          # the caller keeps the response
+        fine = compare(i, rsp, "")
+        delivered.append((rsp, fine))  # the caller keeps the response
         if queue == "one-by-one" or i == len(reqs) - 1:
             if patron.connector.rxbs:
                 bad("leftover", "request %d (%s): %d bytes %r left in the client's receive buffer after the response"
@@ -701,8 +701,8 @@ def sequence_case(case, ctor_method, queue, reqs, part, replay, ctor_path=None):
     if patron.responses:
         bad("extra-response", "%d more responses than requests" % len(patron.responses))
     # ---- every response delivered earlier must still say what it said
-    for i, rsp in enumerate(delivered[:-1]):
-        if not compare(i, rsp, "-changed-after-later-response"):
+    for i, (rsp, fine) in enumerate(delivered[:-1]):
+        if fine and not compare(i, rsp, "-changed-after-later-response"):
             return "earlier-response-changed"
     return "ok"
 
